@@ -6,6 +6,7 @@ reached through super(), functools.wraps-decorated, generator, coroutine) and in
 parameter lists (positional-only, keyword-only, defaulted, *args, **kwargs)."""
 
 HEADER = '''"""GENERATED scripted fixtures - see harness/gen_traced.py"""
+import types as S_types
 from mtfx.script import S, Boom as S_Boom, Suspender, deco as S_deco
 
 '''
@@ -74,6 +75,8 @@ def traced_source():
     s += func("f_wrapped", "a, b=1", deco="S_deco")
     s += func("g_mod", "a, b=0", kind="gen")
     s += func("c_mod", "a", kind="coro")
+    # a generator-based coroutine (types.coroutine only sets CO_ITERABLE_COROUTINE): its yields ARE yields
+    s += func("g_typescoro", "a", kind="gen", deco="S_types.coroutine")
     s += "class Kls:\n"
     s += func("m_inst", "self, a, b=None", ind="    ")
     s += func("m_over", "self, a", ind="    ")
@@ -132,6 +135,7 @@ TARGETS = {
         dict(name="Kls.g_meth", maker="lambda: OBJ.g_meth", sig="M.Kls.g_meth", selfargs="[OBJ]"),
         dict(name="nested rec_gen", maker="lambda: M._NESTED['gen']", sig="M._NESTED['gen']", selfargs="[]"),
         dict(name="twin g_mod", maker="lambda: MT.g_mod", sig="MT.g_mod", selfargs="[]"),
+        dict(name="g_typescoro", maker="lambda: M.g_typescoro", sig="M.g_typescoro", selfargs="[]"),
     ],
     "C": [
         dict(name="c_mod", maker="lambda: M.c_mod", sig="M.c_mod", selfargs="[]"),
